@@ -78,7 +78,11 @@ def fin_closed(w):
     out = []
     for c in w.clients:
         wants = any(s[0] == "close" for t in c.threads for s in t)
-        if wants and c.app.closed != 1:
+        if wants and c.app.closed != 1 and c.ghost.get("close_rejected"):
+            out.append(dict(oracle="closed-eventually", sig="server-rejected-%s" % c.ghost["close_rejected"],
+                            msg="client %d closed, the server answered its %s command with an error instead of closed/released and the client "
+                                "waits for ever; obs=%r" % (c.ci, c.ghost["close_rejected"], c.app.obs)))
+        elif wants and c.app.closed != 1:
             out.append(dict(oracle="closed-eventually", sig="c%d" % c.ci,
                             msg="quiescent but client %d has %d closed notifications; obs=%r; N=%s M=%s T=%s B=%s" % (
                                 c.ci, c.app.closed, c.app.obs, st(c.boss._N), st(c.boss._M), st(c.boss._T), st(c.boss))))
@@ -134,6 +138,12 @@ def scenarios(tier):
     S.append(mk("pair-wrong-fine0-drop%d" % (0 if q else 1), cfg("set", "wrong", "delegate", drops=(0 if q else 1, 0), sends=1), max_depth=100, max_states=400000))
     S.append(mk("pair-alloc-same-fine0", cfg("alloc", "same", "deferred", drops=(0, 0), sends=0), max_depth=100, max_states=400000))
     S.append(mk("solo-set-srverr", cfg("set", None, "delegate", drops=(1, 0), srverr=1), max_depth=80))
+    # crowded through a real third claimant (a raw connection that claimed the nameplate first)
+    third = [{"type": "bind", "appid": "appid", "side": "third"}, {"type": "claim", "nameplate": "4"}]
+    cc = cfg("set", "same", "delegate", drops=(0, 0), fine=(0, 1), sends=0)
+    cc["raw"] = [third]
+    cc["explored"] = tuple(cc["explored"]) + ("raw",)
+    S.append(mk("pair-crowded-by-third-dev2", cc, dev_bound=2 if q else 3, max_depth=150))
     S.append(mk("solo-set-unwelcome", cfg("set", None, "deferred", drops=(1, 0), welcome={"error": "go away"}), max_depth=80))
     S.append(mk("pair-same-dev2-allfine", cfg("set", "same", "deferred", drops=(1, 1), fine=(0, 1), sends=1, srverr=1),
                 dev_bound=2, max_depth=150))
